@@ -22,7 +22,8 @@
 (* refresh_before threshold moves to now), Tick.                           *)
 (*                                                                         *)
 (* Time is counted in half seconds (clock, mtimes); HTTP dates and the     *)
-(* sqlite backend only keep whole seconds (m \div 2).                      *)
+(* sqlite backend only keep whole seconds (m \div 2).  Writing tiles takes *)
+(* time: GetCreate and Rewrite advance the clock by one.                   *)
 (*                                                                         *)
 (* How the (timestamp, size, cacheable) triple that the handlers read      *)
 (* travels from the tile creator to the handler differs per creation path  *)
@@ -33,6 +34,8 @@
 (*   ResetStamp = FALSE _create_single_tile keeps timestamp of the expired *)
 (*                      tile it replaces (tile_buffer: `if not timestamp`) *)
 (*   BranchFlavours     handlers with `if tile.cacheable .. else no_cache` *)
+(* All TRUE / all flavours is the repaired code; the property (bottom of   *)
+(* the module) holds for it and fails for every other combination.         *)
 (***************************************************************************)
 EXTENDS Integers, FiniteSets, TLC
 
